@@ -12,7 +12,7 @@
                              min(p - g + gain_flatmax + ext, p_max) - p > 0
      nf                      noise figure of each candidate at the required gain (any function) *)
 From Coq Require Import QArith Qminmax Lia.
-From Verif Require Import Prelude Model.Select Proofs.Select.
+From Verif Require Import Prelude Model.Select Proofs.Select Gen.SelectGen Proofs.SelectGen.
 Open Scope Q_scope.
 
 (* precedence of the restriction lists: own variety list > booster list of a preceding ROADM > preamp list of a
@@ -272,3 +272,33 @@ Theorem C10_multi_type_permitted_refuted :
     In m (common_groups groups chosen) /\ ~ In m (multi_restrictions nd prev next bands lib groups).
 Proof. exact multi_type_permitted_refuted. Qed.
 Print Assumptions C10_multi_type_permitted_refuted.
+
+(* ---- translator tie: definitions generated from the source text of gnpy/core/network.py (harness/pygen_c10.py ->
+   Gen/SelectGen.v, regenerated on every run) proved equal to the hand-written model.  mk_row = the Edfa_list entry of a
+   library entry (power margin, gain_min margin). ---- *)
+Theorem C10_source_filter : forall ra gain pt ext lib,
+  g_filter ra gain pt ext lib =
+  (let* g := acc_gain ra gain lib in
+   match g with
+   | [] => Err "ValueError:max() arg is an empty sequence"
+   | _ => Ok (map (mk_row ext gain pt) (acc_power ext gain pt g))
+   end).
+Proof. exact gen_filter. Qed.
+Print Assumptions C10_source_filter.
+
+Theorem C10_source_select_edfa : forall ra gain pt ext nf lib,
+  g_select_edfa ra gain pt ext nf lib = select_edfa ra gain pt ext nf lib.
+Proof. exact gen_select_edfa. Qed.
+Print Assumptions C10_source_select_edfa.
+
+Theorem C10_source_restriction_condition : forall r bmin bmax a, g_permb r bmin bmax a = permb r bmin bmax a.
+Proof. exact gen_permb. Qed.
+Print Assumptions C10_source_restriction_condition.
+
+Theorem C10_source_preselect_cover : forall a bmin bmax, g_presel_cover a bmin bmax = covers a bmin bmax.
+Proof. exact gen_presel_cover. Qed.
+Print Assumptions C10_source_preselect_cover.
+
+Theorem C10_source_raman_allowed : forall prev maxl, g_raman_allowed prev maxl = raman_allowed prev maxl.
+Proof. exact gen_raman_allowed. Qed.
+Print Assumptions C10_source_raman_allowed.
